@@ -1,15 +1,27 @@
 #!/bin/bash
-# selftest.sh [id ...] : must-fail corpus. Applies every selftest/<id>/*.diff and seeded/<id>-*/patch.diff to /repo in
-# turn, runs the property's quick check and requires a VIOLATION line; restores /repo after each. Developer tool
-# (never part of a registered check: it edits the working tree of /repo temporarily).
+# selftest.sh [-j N] [id ...] : must-fail corpus. Applies every selftest/<id>/*.diff and seeded/<id>-*/patch.diff to a
+# scratch worktree of /repo in turn (seedtest.sh; /repo itself is never touched), runs the property's quick check
+# there and requires a VIOLATION line. Then the benign corpus (selftest_benign/<id>/*.diff) must stay quiet.
+# Developer tool, not a registered check. N jobs run side by side (default 4).
 cd "$(dirname "$0")"
+jobs=4
+if [ "$1" = "-j" ]; then jobs=$2; shift 2; fi
 ids="$*"; [ -z "$ids" ] && ids=$(ls selftest seeded | grep -o '^C[0-9]*' | sort -u)
-fail=0
-for id in $ids; do
-  for p in selftest/$id/*.diff seeded/$id-*/patch.diff; do
-    [ -f "$p" ] || continue
-    out=$(./seedtest.sh "$id" "$PWD/$p" 2>&1)
-    if echo "$out" | grep -q "^VIOLATION property=$id "; then echo "caught   $p"; else echo "MISSED   $p"; echo "$out" | tail -3; fail=1; fi
-  done
-done
-exit $fail
+one() {
+  id=$1; p=$2; kind=$3
+  out=$(./seedtest.sh "$id" "$PWD/$p" 2>&1)
+  if [ "$kind" = mustfail ]; then
+    if echo "$out" | grep -q "^VIOLATION property=$id "; then echo "caught   $p"; else echo "MISSED   $p"; echo "$out" | tail -3; fi
+  else
+    if echo "$out" | grep -q "^VIOLATION\|^ENGINE"; then echo "ALARM    $p"; echo "$out" | grep "^VIOLATION\|^ENGINE" | head -3; else echo "quiet    $p"; fi
+  fi
+}
+export -f one
+list=$(for id in $ids; do
+  for p in selftest/$id/*.diff seeded/$id-*/patch.diff; do [ -f "$p" ] && echo "$id $p mustfail"; done
+  for p in selftest_benign/$id/*.diff; do [ -f "$p" ] && echo "$id $p benign"; done
+done)
+res=$(echo "$list" | xargs -P $jobs -L 1 bash -c 'one $0 $1 $2')
+echo "$res" | sort
+if echo "$res" | grep -q "^MISSED\|^ALARM"; then exit 1; fi
+exit 0
